@@ -123,6 +123,7 @@ def run(chk):
     for h in ('cfw', 'cfwx', 'cfwy'):
         fieldk.helper_bounds(chk, 'R11.5', u1, rel1, h)
     r11_python(chk)
+    r11_6(chk)
     chk.explanation = ('series loops of the field kernels lowered to linear forms over the amplitude vector and compared '
                        'with the Ritz series / strain table; structural rules for chunking, option forwarding, stress table and slices')
 
@@ -296,3 +297,32 @@ def bay_slices(chk):
     chk.ob('R11.6', ok or not sl, BAY, 'StiffPanelBay.uvw_skin', 'skin slice', expected='c[:num*m*n] (skin block is first in the layout)', got=got)
     from . import c13
     c13.uvw_stiffener_layout(chk, 'R11.6')
+
+
+def r11_6(chk):
+    """point arrays are flattened, and results reshaped, in one and the same (default, C) order: the value at
+    [i, j] of an output is the field at (xs[i, j], ys[i, j]) whatever the memory layout of the caller's arrays"""
+    import ast as _ast
+    from .pyrules import module as _module, norm as _norm
+    n = 0
+    for rel, cls in (('compmech/panel/_panel.py', 'Panel'), ('compmech/stiffpanelbay/stiffpanelbay.py', 'StiffPanelBay'),
+                     ('compmech/panel/assembly/assembly.py', 'PanelAssembly')):
+        m = _module(rel)
+        for name, fn in m.classes.get(cls, {}).items():
+            if name not in ('_default_field', 'uvw', 'strain', 'stress', 'uvw_skin', 'uvw_stiffener', 'plot'):
+                continue
+            for c in _ast.walk(fn):
+                if isinstance(c, _ast.Call) and isinstance(c.func, _ast.Attribute) and c.func.attr in ('ravel', 'flatten', 'reshape'):
+                    order = [k for k in c.keywords if k.arg == 'order']
+                    pos = None
+                    if c.func.attr in ('ravel', 'flatten') and c.args:
+                        pos = c.args[0]
+                    bad = [k.value for k in order if not (isinstance(k.value, _ast.Constant) and k.value.value == 'C')]
+                    if pos is not None and not (isinstance(pos, _ast.Constant) and pos.value == 'C'):
+                        bad.append(pos)
+                    n += 1
+                    chk.ob('R11.6', not bad, rel, '%s.%s' % (cls, name), 'C-order %s' % _norm(c)[:40], line=c.lineno,
+                           expected='default (C) order for every flatten / reshape of point and result arrays', got=[_norm(b) for b in bad],
+                           detail='' if not bad else 'points flattened in memory order but results reshaped in C order: for Fortran-ordered or transposed inputs the value at [i, j] is the field at another point',
+                           sample='%s.%s: %s' % (cls, name, _norm(c)[:50]))
+    chk.floor('R11.6 flatten/reshape sites', n, 10)
